@@ -171,24 +171,40 @@ Proof. destruct s; reflexivity. Qed.
 Lemma hd_opt_app a b : hd_opt (a ++ b) = nxt a (hd_opt b).
 Proof. destruct a; reflexivity. Qed.
 
-(* the invariant about [adv]: in a consistent leaf list every recorded start is the
-   position reached after all preceding text plus the leaf's own prefix *)
+Lemma hd_opt_nxt_gen v r : hd_opt (v ++ r) = nxt v (hd_opt r).
+Proof. apply hd_opt_app. Qed.
+
+Lemma is_empty_false v : is_empty v = false <-> v <> [].
+Proof. destruct v; simpl; split; intros; congruence. Qed.
+
+(* the invariant about [adv]: in a consistent leaf list every recorded start of a non-empty
+   leaf is the position reached after all preceding text plus the leaf's own prefix *)
 Lemma consistent_from_start A : forall p l B,
   consistent_from p (A ++ l :: B) = true ->
-  lstart l = adv p (code_of A ++ lprefix l) (hd_opt (lvalue l ++ code_of B)) /\
-  consistent_from (adv (lstart l) (lvalue l) (hd_opt (code_of B))) B = true.
+  (lvalue l <> [] ->
+   lstart l = adv p (code_of A ++ lprefix l) (hd_opt (lvalue l ++ code_of B))) /\
+  consistent_from (adv p ((code_of A ++ lprefix l) ++ lvalue l) (hd_opt (code_of B))) B = true.
 Proof.
   induction A as [|a A IH]; intros p l B H.
-  - simpl in H. apply andb_true_iff in H as [H1 H2]. apply pos_eqb_eq in H1.
-    rewrite value_next_code in H1, H2. rewrite first_char_code, H1 in H2.
-    cbn [code_of flat_map app]. auto.
+  - simpl in H. apply andb_true_iff in H as [H1 H2].
+    rewrite value_next_code in H1, H2. rewrite first_char_code in H2.
+    cbn [code_of flat_map app]. split.
+    + intros Hne. apply is_empty_false in Hne. rewrite Hne in H1. simpl in H1.
+      apply pos_eqb_eq in H1. auto.
+    + rewrite adv_app. rewrite <- hd_opt_nxt_gen. exact H2.
   - simpl app in H. simpl in H. apply andb_true_iff in H as [_ H2].
-    apply IH in H2 as [H2 H3]. split; [|exact H3].
-    rewrite H2. rewrite code_of_cons. rewrite value_next_code, first_char_code.
-    rewrite <- !app_assoc.
-    rewrite (adv_app p (lprefix a)), (adv_app _ (lvalue a)).
-    rewrite <- !hd_opt_app. rewrite code_of_app, code_of_cons.
-    rewrite <- !app_assoc. reflexivity.
+    apply IH in H2 as [H2 H3].
+    split.
+    + intros Hne. rewrite (H2 Hne). rewrite code_of_cons. rewrite value_next_code, first_char_code.
+      rewrite <- !app_assoc.
+      rewrite (adv_app p (lprefix a)), (adv_app _ (lvalue a)).
+      rewrite <- !hd_opt_app. rewrite code_of_app, code_of_cons.
+      rewrite <- !app_assoc. reflexivity.
+    + rewrite <- H3. f_equal. rewrite code_of_cons. rewrite value_next_code, first_char_code.
+      rewrite <- !app_assoc.
+      rewrite (adv_app p (lprefix a)), (adv_app _ (lvalue a)).
+      rewrite <- !hd_opt_app. rewrite code_of_app, code_of_cons.
+      rewrite <- !app_assoc. reflexivity.
 Qed.
 
 (* ---------------------------------------------------------------- theorem: text at position *)
@@ -200,18 +216,20 @@ Proof.
 Qed.
 
 Lemma consistent_start t A l B :
-  consistent t = true -> leaves t = A ++ l :: B ->
+  consistent t = true -> leaves t = A ++ l :: B -> lvalue l <> [] ->
   lstart l = adv origin (code_of A ++ lprefix l) (hd_opt (lvalue l ++ code_of B)).
 Proof.
-  unfold consistent. intros Hc Hl. rewrite Hl in Hc.
-  apply consistent_from_start in Hc as [H _]. exact H.
+  unfold consistent. intros Hc Hl Hne. rewrite Hl in Hc.
+  apply consistent_from_start in Hc as [H _]. exact (H Hne).
 Qed.
 
 Theorem leaf_text_at_pos t A l B :
   consistent t = true -> leaves t = A ++ l :: B ->
   slice_at (split_lines (get_code t)) (lstart l) (length (lvalue l)) = first_line (lvalue l).
 Proof.
-  intros Hc Hl. pose proof (consistent_start t A l B Hc Hl) as Hs.
+  intros Hc Hl. destruct (lvalue l) as [|c v] eqn:Ev; [reflexivity|]. rewrite <- Ev.
+  assert (Hne : lvalue l <> []) by (rewrite Ev; discriminate).
+  pose proof (consistent_start t A l B Hc Hl Hne) as Hs.
   rewrite (get_code_split t A l B Hl).
   destruct (locate_origin _ _ _ Hs) as (_ & H & _).
   unfold slice_at. rewrite H. apply first_line_app.
@@ -247,13 +265,13 @@ Proof.
 Qed.
 
 Theorem line_code_contains_name t A l B :
-  consistent t = true -> leaves t = A ++ l :: B ->
+  consistent t = true -> leaves t = A ++ l :: B -> lvalue l <> [] ->
   let lines := split_lines (get_code t) in
   1 <= fst (lstart l) /\ (N.to_nat (fst (lstart l) - 1) < length lines)%nat /\
   exists a b, get_line_code lines (fst (lstart l)) 0 0 = a ++ first_line (lvalue l) ++ b /\
               length a = N.to_nat (snd (lstart l)).
 Proof.
-  intros Hc Hl lines. pose proof (consistent_start t A l B Hc Hl) as Hs.
+  intros Hc Hl Hne lines. pose proof (consistent_start t A l B Hc Hl Hne) as Hs.
   unfold lines. rewrite (get_code_split t A l B Hl).
   destruct (locate_origin _ _ _ Hs) as (H1 & _ & H3 & H4 & H5).
   split; [exact H1|]. split; [exact H4|].
@@ -309,15 +327,20 @@ Definition name_end (x : leaf) : pos := (fst (lstart x), snd (lstart x) + N.of_n
 
 (* order of recorded starts in a consistent leaf list *)
 Lemma consistent_from_order p A x M y B :
-  consistent_from p (A ++ x :: M ++ y :: B) = true ->
+  consistent_from p (A ++ x :: M ++ y :: B) = true -> lvalue x <> [] -> lvalue y <> [] ->
   pos_leb (lstart x) (lstart y) = true /\
   (no_break (lvalue x) = true -> pos_leb (name_end x) (lstart y) = true).
 Proof.
-  intros H. apply consistent_from_start in H as [_ H].
-  apply consistent_from_start in H as [H _].
+  intros H Hx Hy. apply consistent_from_start in H as [Hsx H].
+  apply consistent_from_start in H as [Hsy _].
+  specialize (Hsx Hx). specialize (Hsy Hy).
+  assert (EP : adv p ((code_of A ++ lprefix x) ++ lvalue x) (hd_opt (code_of (M ++ y :: B)))
+               = adv (lstart x) (lvalue x) (hd_opt (code_of (M ++ y :: B))))
+    by (rewrite adv_app, <- hd_opt_app, <- Hsx; reflexivity).
+  rewrite EP in Hsy.
   split.
-  - rewrite H. eapply pos_leb_trans; apply adv_mono.
-  - intros Hn. rewrite H. rewrite (adv_no_break _ _ _ Hn). apply adv_mono.
+  - rewrite Hsy. eapply pos_leb_trans; apply adv_mono.
+  - intros Hn. rewrite Hsy. rewrite (adv_no_break _ _ _ Hn). apply adv_mono.
 Qed.
 
 Lemma leaf_end_ge l : pos_leb (lstart l) (leaf_end l) = true.
@@ -332,25 +355,27 @@ Proof. destruct x as [k p v [l c]]. unfold name_end. pos_unfold. simpl. lia. Qed
 (* within D1 ++ x :: D2: everything before x starts no later, everything from x on ends no earlier *)
 Lemma before_le p A D1 x D2 B y :
   consistent_from p (A ++ (D1 ++ x :: D2) ++ B) = true -> In y (D1 ++ [x]) ->
+  lvalue x <> [] -> lvalue y <> [] ->
   pos_leb (lstart y) (lstart x) = true.
 Proof.
-  intros H Hy. apply in_app_or in Hy as [Hy|[->|[]]]; [|apply pos_leb_refl].
+  intros H Hy Hnx Hny. apply in_app_or in Hy as [Hy|[->|[]]]; [|apply pos_leb_refl].
   apply in_split in Hy as (M1 & M2 & ->).
   replace (A ++ ((M1 ++ y :: M2) ++ x :: D2) ++ B) with ((A ++ M1) ++ y :: M2 ++ x :: (D2 ++ B)) in H
     by (repeat (rewrite <- ?app_assoc; simpl); reflexivity).
-  apply consistent_from_order in H as [H _]. exact H.
+  apply consistent_from_order in H as [H _]; auto.
 Qed.
 
 Lemma after_ge p A D1 x D2 B y :
   consistent_from p (A ++ (D1 ++ x :: D2) ++ B) = true -> no_break (lvalue x) = true ->
+  lvalue x <> [] -> lvalue y <> [] ->
   In y (x :: D2) -> pos_leb (name_end x) (leaf_end y) = true.
 Proof.
-  intros H Hn [<-|Hy].
+  intros H Hn Hnx Hny [<-|Hy].
   - rewrite (leaf_end_name _ Hn). apply pos_leb_refl.
   - apply in_split in Hy as (M1 & M2 & ->).
     replace (A ++ (D1 ++ x :: M1 ++ y :: M2) ++ B) with ((A ++ D1) ++ x :: M1 ++ y :: (M2 ++ B)) in H
       by (repeat (rewrite <- ?app_assoc; simpl); reflexivity).
-    apply consistent_from_order in H as [_ H].
+    apply consistent_from_order in H as [_ H]; auto.
     eapply pos_leb_trans; [apply (H Hn)|apply leaf_end_ge].
 Qed.
 
@@ -412,23 +437,32 @@ Proof.
       * exists z. split; [right; exact Hz|reflexivity].
 Qed.
 
+Lemma solid_In d y : solid d = true -> In y (leaves d) -> lvalue y <> [].
+Proof.
+  unfold solid. rewrite forallb_forall. intros H Hy. specialize (H _ Hy).
+  apply negb_true_iff, is_empty_false in H. exact H.
+Qed.
+
 Theorem def_range_encloses t path d x fc :
-  consistent t = true -> subtree t path = Some d -> In x (leaves d) ->
+  consistent t = true -> subtree t path = Some d -> solid d = true -> In x (leaves d) ->
   is_name x = true -> no_break (lvalue x) = true ->
   exists rng, def_range t (Some path) x fc = Some rng /\
               encloses rng (lstart x) (length (lvalue x)) = true.
 Proof.
-  intros Hc Hs Hin Hname Hnb.
+  intros Hc Hs Hsolid Hin Hname Hnb.
   destruct (subtree_leaves _ _ _ Hs) as (A & B & HAB).
+  pose proof (solid_In d x Hsolid Hin) as Hnx.
+  assert (Hall : forall y, In y (leaves d) -> lvalue y <> []) by (intros; eapply solid_In; eauto).
   apply in_split in Hin as (D1 & D2 & HD).
   unfold consistent in Hc. rewrite HAB, HD in Hc.
-  unfold def_range. rewrite Hs. unfold node_start, def_end, node_end. rewrite HD.
+  unfold def_range. rewrite Hs. unfold node_start, def_end, node_end. rewrite HD in *.
   destruct (hd_error_app_cons D1 x D2) as (y0 & Hy0 & Hin0). rewrite Hy0. cbn [option_map].
   destruct (def_end_leaf D1 x D2 fc Hname) as (y1 & Hin1 & Hy1). rewrite Hy1.
   eexists. split; [reflexivity|].
   unfold encloses. cbn [fst snd]. apply andb_true_iff. split.
-  - eapply before_le; eauto.
-  - eapply after_ge; eauto.
+  - eapply before_le; eauto. apply Hall.
+    apply in_app_or in Hin0 as [H|[<-|[]]]; apply in_or_app; [left; exact H|right; left; reflexivity].
+  - eapply after_ge; eauto. apply Hall. apply in_or_app. right. exact Hin1.
 Qed.
 
 Theorem def_range_none_encloses t x fc :
@@ -571,9 +605,15 @@ Proof.
   destruct (is_name x) eqn:En; [|eapply IH; eassumption].
   constructor; [eapply IH; eassumption|].
   simpl in Hx. apply andb_true_iff in Hx as [Hnb Hne]. apply negb_true_iff in Hne.
-  rewrite Forall_forall. intros y Hy. apply filter_In in Hy as [Hy _].
+  rewrite Forall_forall. intros y Hy'. assert (Hy := Hy'). apply filter_In in Hy as [Hy _].
+  assert (Hyn : lvalue y <> []).
+  { rewrite forallb_forall in Hr. specialize (Hr _ Hy). apply filter_In in Hy' as [_ Hy'].
+    rewrite Hy' in Hr. simpl in Hr. apply andb_true_iff in Hr as [_ Hr].
+    apply negb_true_iff, Nat.eqb_neq in Hr. intros E. rewrite E in Hr. apply Hr. reflexivity. }
+  assert (Hxn : lvalue x <> []).
+  { apply Nat.eqb_neq in Hne. intros E. rewrite E in Hne. apply Hne. reflexivity. }
   apply in_split in Hy as (M & B & ->).
-  apply (consistent_from_order p [] x M y B) in Hc as [_ Hc].
+  apply (consistent_from_order p [] x M y B) in Hc as [_ Hc]; auto.
   unfold lt_start. eapply pos_lt_le_trans; [apply name_end_gt, Hne|apply Hc, Hnb].
 Qed.
 
